@@ -176,4 +176,12 @@ theorem socHam_hermitian (α : K) (P : Fin 2 → Fin 2 → Fin 3 → K)
   rcases Nat.mod_two_eq_zero_or_one a with ha | ha <;> rcases Nat.mod_two_eq_zero_or_one b with hb | hb <;>
     simp [ha, hb, h00, h11, h01, h10, hP, hα, map_add, map_mul]
 
+/-- non-vacuity of T5 (trivial conjugation on ℚ, symmetric `P`, primed data defined from the unprimed) -/
+example (d00 d11 d01 d01c : Nat → Nat → Fin 3 → ℚ) (a b : Nat) :
+    socHam (3/2 : ℚ) (fun i j c => (i.val + j.val + c.val : ℚ))
+        (fun m n c => d00 n m c) (fun m n c => d11 n m c) (fun m n c => d01c n m c) (fun m n c => d01 n m c) a b
+      = socHam (3/2 : ℚ) (fun i j c => (i.val + j.val + c.val : ℚ)) d00 d11 d01 d01c b a :=
+  socHam_hermitian (conj := RingHom.id ℚ) (3/2) _ rfl (fun i j c => by simp [add_comm]) d00 d11 d01 d01c _ _ _ _
+    (fun _ _ _ => rfl) (fun _ _ _ => rfl) (fun _ _ _ => rfl) (fun _ _ _ => rfl) a b
+
 end WB.C25
